@@ -16,7 +16,7 @@
 //   subrow <i> want=<bits> given=<bits> deleted=0|1   stored subscription row (soft-deleted if deleted=1)
 //   msg <seq> from=<i> content=<n>             stored message row
 //   sess <si> <ui>
-//   op <N|Fk|Ck> sub|leave|pub|getdata|getdesc|unload|restart args
+//   op <N|Fk|Ck> sub|subp|leave|pub|getdata|getdesc|unload|restart args
 //   end
 // The stored state is seeded through the store mappers before the first session is created
 // (p2p: Topics.Create without owner + Subs.Create/Delete + Messages.Save + Topics.Update;
@@ -194,6 +194,9 @@ func (sc *xScn) xop(w []string) {
 	switch kind {
 	case "sub":
 		sc.send(at(0), `{"sub":{"id":"`+id+`","topic":"`+tn+`"}}`)
+	case "subp":
+		// the same topic addressed by its p2pAAABBB name ('sys': no other name)
+		sc.send(at(0), `{"sub":{"id":"`+id+`","topic":"`+sc.topic+`"}}`)
 	case "leave":
 		unsub := ""
 		if a[1] == "1" {
